@@ -16,8 +16,11 @@ TRUSTED_BASE = [
 
 
 def P(title, decides, not_decided, technique, claimed=False, na_reason='checker not implemented yet'):
-    technique += ('; Python sources compared in a normal form (copy propagation, block SSA, if-shape and idiom normalisation, '
-                  'helper folding) through atomic path facts and meaning-level text; reviewed-reference fallback for local shape obligations')
+    technique += ('; Python sources compared in a normal form (copy propagation, block SSA / live ranges, tail duplication, if-shape, '
+                  'loop and idiom normalisation, helper and constant folding) through atomic path facts (dominating and per path) and '
+                  'meaning-level text; C++ through dominating / short-circuit guards and const-local substituted text; an obligation '
+                  'whose structural argument can no longer be made is reported (E0.argument-lost), not skipped; reviewed-reference '
+                  'fallback for local shape obligations (unused on the current tree)')
     return {'title': title, 'explanation': decides, 'not_decided': not_decided, 'technique': technique,
             'claimed': claimed, 'na_reason': na_reason}
 
